@@ -169,6 +169,13 @@ class Extractor:
             f = f.ret[0] if f.ret else None
         return self.inline_pred(cb, t) if self.inline_pred else True
 
+    def _assembled(self, S, loc, out, site):
+        """a value just assembled from consecutive bytes of a sequence is a typed read of that sequence"""
+        v = S.read(loc)
+        if isinstance(v, tuple) and v[0] == "model" and v[1] == "uint-from-bytes" and v not in self.order:
+            out.append(("read", "u%d%s" % (8 * v[3], v[2]), site))
+            self.order.append(v)
+
     def _probe_tokens(self, toks, S):
         if self.probe is not None:
             toks = toks + [("probe", self.probe(self.outer.it, S))]
@@ -327,12 +334,15 @@ class Extractor:
         t = blk["term"]
         S = S_in.copy()
         rets = []
+        mark = len(self.order)
         for si, st in enumerate(blk["stmts"]):
             it.cur = (bi, si)
             it.counter = 0
             it.transfer_stmt(S, st)
             if S.dead:
                 return
+            if self.mode == "r" and st["rv"].get("k") == "bin" and st["rv"].get("op") == "BitOr":
+                self._assembled(S, it.resolve(S, Place(st["place"])), rets, (body.key, bi, si))
             if st["place"]["l"] == 0 and not st["place"]["p"]:
                 if outer:
                     rets.append(self.return_token(S))
@@ -347,7 +357,6 @@ class Extractor:
                     rets.append(("store", "via:" + stable_loc(loc), render_value(self.prog, S.read(loc), names=self.names())))
         it.cur = (bi, len(blk["stmts"]))
         it.counter = 0
-        mark = len(self.order)
         new = self.tokens_of_block(bi, S)
         toks = toks + rets + new
         if outer:
@@ -414,6 +423,8 @@ class Extractor:
                 extra.append(self.return_token(S2))
             if k == "switch":
                 extra = extra + self.decision_token(bi, s, dec)
+            if k == "call" and self.mode == "r" and "_bytes" in callee_name(t) and "::from_" in callee_name(t):
+                self._assembled(S2, it.resolve(S2, Place(t["dest"])), extra, (body.key, bi))
             self._edge(fr, bi, s, S2, toks, used, exiting, res, extra)
         self.body, self.it = fr.body, fr.it
         del self.order[mark:]
@@ -421,7 +432,10 @@ class Extractor:
     def names(self):
         out = {}
         for i, R in enumerate(self.order):
-            out[("proj", R, (("dc", 0, "Ok"), ("f", 0, "0")))] = "#%d" % (i + 1)
+            if isinstance(R, tuple) and R[0] == "model" and R[1] == "uint-from-bytes":
+                out[R] = "#%d" % (i + 1)
+            else:
+                out[("proj", R, (("dc", 0, "Ok"), ("f", 0, "0")))] = "#%d" % (i + 1)
         return out
 
     def return_token(self, S):
@@ -542,7 +556,8 @@ class Extractor:
             if name in READ_CALLS:
                 w, n = READ_CALLS[name]
                 toks.append(("read", w + endian(t), (body.key, bi)))
-                self.order.append(("call", (body.key, bi, len(body.blocks[bi]["stmts"])), callee_path(t)))
+                it.cur = (bi, len(body.blocks[bi]["stmts"]))
+                self.order.append(("call", it.site(), callee_path(t)))
             elif name in ("bytes::bytes_mut::BytesMut::split_to", "bytes::buf::buf_impl::Buf::advance", "alloc::vec::Vec::drain", "alloc::vec::Vec::remove") and self.track_takes:
                 tgt = it.target(args[0])
                 fld = ".".join(e[2] for e in tgt[1] if e[0] == "f")
